@@ -1,5 +1,6 @@
 import HcipyVerif.Lemmas.ModeBasis
 import HcipyVerif.Lemmas.Lstsq
+import HcipyVerif.Lemmas.GaussJordan
 import HcipyVerif.Lemmas.Mirror
 
 /-!
@@ -8,7 +9,8 @@ import HcipyVerif.Lemmas.Mirror
 Model: `HcipyVerif.ModeBasis` (storage forms `dense` = list of rows, `sparse` = list of stored
 CSC columns; constructors `fromDense / fromCSC / fromFields / fromSparseRows`; operations
 `linComb`, `getItem`, `add`, `sparsify`, `densify`) and `HcipyVerif.Mirror` (heap of actuator
-arrays with handles, value-compared private-copy surface cache).  The shared denotation is
+arrays with handles, heap of surface arrays with the handles the caller received,
+value-compared private-copy surface cache, reads hand out copies).  The shared denotation is
 `toDense : Basis K → List (List K)` together with `npix`, `nmodes`.
 
 The basis theorems hold over every commutative semiring / additive monoid `K` (in particular
@@ -149,6 +151,138 @@ theorem getItem_window (b : Basis K) (k : Nat) (hk : k < b.nmodes) :
     getItem b (.slice (some k) (some (k + 1)) none) = .ok (.basis (selectCols b [k])) := by
   simp [getItem, selIdx, sliceIdx_window b.nmodes k hk]
 
+/-! ### The constructor dispatch
+
+`fromInput` is the decision `ModeBasis.__init__` takes on the Python object it is given (the
+driver builds every basis through it; the harness only describes the object: ndarray, sparse
+matrix of a given format, list or tuple of vectors / sparse matrices). -/
+
+/-- a two-dimensional `ndarray` is taken as the dense transformation matrix -/
+theorem fromInput_ndarray (n m : Nat) (rows : List (List K)) :
+    fromInput (.ndarray n m rows) = some (fromDense n m rows) := rfl
+
+/-- a CSC sparse matrix is taken over as the sparse transformation matrix -/
+theorem fromInput_csc (n m : Nat) (ip ix : List Nat) (d : List K) :
+    fromInput (.spmat .csc n m ip ix d) = some (fromCSC n m ip ix d) := rfl
+
+/-- a non-empty list or tuple of vectors of one length is `fromFields` (`np.stack(…, axis=-1)`) -/
+theorem fromInput_fields (t : Bool) (npix : Nat) (vs : List (List K)) (hne : vs ≠ [])
+    (h : ∀ v ∈ vs, v.length = npix) :
+    fromInput (.seq t (vs.map Mode.vec)) = some (fromFields npix vs) := by
+  match vs, hne with
+  | v :: rest, _ =>
+    have hv : v.length = npix := h v (by simp)
+    have := allVec_map npix (v :: rest) h
+    simp only [List.map_cons] at this ⊢
+    simp only [fromInput, hv, this, Option.map_some]
+
+/-- a non-empty list or tuple of sparse row vectors `(1, npix)` is `fromSparseRows`
+(`vstack(…).T.tocsc()`) -/
+theorem fromInput_rows (t : Bool) (npix : Nat) (es : List (SCol K)) (hne : es ≠ []) :
+    fromInput (.seq t (es.map (Mode.sp 1 npix))) = some (fromSparseRows npix es) := by
+  match es, hne with
+  | e :: rest, _ =>
+    have := allRow_map npix (e :: rest)
+    simp only [List.map_cons] at this ⊢
+    simp only [fromInput, this, Option.map_some]
+
+/-- lists and tuples are treated alike -/
+theorem fromInput_tuple_eq_list (items : List (Mode K)) :
+    fromInput (.seq true items) = fromInput (.seq false items) := by
+  match items with
+  | [] => rfl
+  | .vec _ :: _ => rfl
+  | .sp .. :: _ => rfl
+
+/-- an empty list, and a list that mixes vectors and sparse matrices, is rejected (`ValueError`
+from `np.stack`) -/
+theorem fromInput_rejects (t : Bool) (v : List K) (nr nc : Nat) (e : SCol K) (l l' : List (Mode K)) :
+    fromInput (.seq t ([] : List (Mode K))) = none ∧
+    fromInput (.seq t (.vec v :: (l ++ .sp nr nc e :: l'))) = none ∧
+    fromInput (.seq t (.sp nr nc e :: (l ++ .vec v :: l'))) = none := by
+  refine ⟨rfl, ?_, ?_⟩
+  · have := allVec_sp v.length nr nc e (.vec v :: l) l'
+    simp only [List.cons_append] at this
+    simp only [fromInput, this, Option.map_none]
+  · have := allRow_vec nc v (.sp nr nc e :: l) l'
+    simp only [List.cons_append] at this
+    simp only [fromInput, this, Option.map_none]
+
+/-- **Every input form, through the dispatch, denotes the same matrix.**  If an ndarray, a CSC
+triple, a CSR triple, COO triples, a list of vectors and a tuple of sparse row vectors all
+describe the entries `f i j` of an `npix × nmodes` matrix (`nmodes > 0` for the two list forms),
+`fromInput` accepts each of them and the resulting bases have the same dense table and shape. -/
+theorem input_forms_same_map (npix nmodes : Nat) (hm : 0 < nmodes) (f : Nat → Nat → K)
+    (rows : List (List K)) (hr : WF (fromDense npix nmodes rows))
+    (hrf : ∀ i j, i < npix → j < nmodes → rowsEntry rows i j = f i j)
+    (indptr indices : List Nat) (data : List K) (hlen : indices.length = data.length)
+    (hptr : ∀ j, j < nmodes → indptr.getD j 0 ≤ indptr.getD (j + 1) 0 ∧ indptr.getD (j + 1) 0 ≤ data.length)
+    (hcf : ∀ i j, i < npix → j < nmodes → cscEntry indptr indices data i j = f i j)
+    (rptr rind : List Nat) (rdata : List K) (hrlen : rind.length = rdata.length)
+    (hrptr : ∀ i, i < npix → rptr.getD i 0 ≤ rptr.getD (i + 1) 0 ∧ rptr.getD (i + 1) 0 ≤ rdata.length)
+    (hrcf : ∀ i j, i < npix → j < nmodes → cscEntry rptr rind rdata j i = f i j)
+    (crow ccol : List Nat) (cdata : List K)
+    (hcoo : ∀ i j, i < npix → j < nmodes → cooEntry crow ccol cdata i j = f i j)
+    (fields : List (List K)) (hfl : fields.length = nmodes) (hfn : ∀ v ∈ fields, v.length = npix)
+    (hff : ∀ i j, i < npix → j < nmodes → (fields.getD j []).getD i 0 = f i j)
+    (srows : List (SCol K)) (hsl : srows.length = nmodes)
+    (hsf : ∀ i j, i < npix → j < nmodes → colEntry (srows.getD j []) i = f i j) :
+    ∀ inp ∈ [Input.ndarray npix nmodes rows, .spmat .csc npix nmodes indptr indices data,
+        .spmat .csr npix nmodes rptr rind rdata, .spmat .coo npix nmodes crow ccol cdata,
+        .seq false (fields.map Mode.vec), .seq true (srows.map (Mode.sp 1 npix))],
+      ∃ b, fromInput inp = some b ∧ toDense b = table npix nmodes f ∧ b.npix = npix ∧ b.nmodes = nmodes := by
+  obtain ⟨h1, h2, h3, h4, h5, h6⟩ := forms_same_map npix nmodes f rows hr hrf indptr indices data hlen hptr hcf
+    fields hfl hff srows hsl hsf
+  have tab : ∀ (b : Basis K), b.npix = npix → b.nmodes = nmodes →
+      (∀ i j, i < npix → j < nmodes → ent b i j = f i j) → toDense b = table npix nmodes f := by
+    intro b e1 e2 e3
+    unfold toDense table
+    rw [e1, e2]
+    apply List.map_congr_left; intro i hi
+    apply List.map_congr_left; intro j hj
+    simp at hi hj
+    exact e3 i j hi hj
+  have hfne : fields ≠ [] := by intro h; rw [h] at hfl; simp at hfl; omega
+  have hsne : srows ≠ [] := by intro h; rw [h] at hsl; simp at hsl; omega
+  intro inp hinp
+  simp only [List.mem_cons, List.mem_nil_iff, or_false] at hinp
+  rcases hinp with rfl | rfl | rfl | rfl | rfl | rfl
+  · exact ⟨_, rfl, h1, rfl, rfl⟩
+  · exact ⟨_, rfl, h2, rfl, rfl⟩
+  · refine ⟨_, rfl, tab _ rfl rfl ?_, rfl, rfl⟩
+    intro i j hi hj
+    have hlen' : (splitCSC npix rptr rind rdata).length = npix := by simp [splitCSC]
+    rw [ent_transposeRows npix nmodes _ i j (by rw [hlen']; exact hi) hj]
+    have := ent_fromCSC nmodes npix rptr rind rdata j i hi hrlen (hrptr i hi)
+    simp only [ent, fromCSC] at this
+    rw [this]
+    exact hrcf i j hi hj
+  · refine ⟨_, rfl, tab _ rfl rfl ?_, rfl, rfl⟩
+    intro i j hi hj
+    rw [ent_cooCols npix nmodes crow ccol cdata i j hj]
+    exact hcoo i j hi hj
+  · exact ⟨_, fromInput_fields false npix fields hfne hfn, h3, rfl, h5⟩
+  · exact ⟨_, fromInput_rows true npix srows hsne, h4, rfl, h6⟩
+
+/-- **Bridge from the driver to the hypotheses of the basis theorems.**  `Input.valid` is the
+check the driver evaluates on every `new` request (shapes of the ndarray, lengths and index
+ranges of the arrays of a sparse matrix — what NumPy/SciPy guarantee for the object); whatever
+`fromInput` builds from a valid input is well-formed.  Together with the `WF r` conclusions of
+`slice_commutes`, `add_is_hconcat`, `extend_is_hconcat`, `append_is_hconcat` and
+`sparse_dense_roundtrip` this makes `WF` hold for every basis the driver ever holds in a
+register, i.e. for every basis the harness compares with the running code. -/
+theorem fromInput_WF (inp : Input K) (hv : inp.valid = true) (b : Basis K)
+    (hb : fromInput inp = some b) : WF b := fromInput_WF_aux inp hv b hb
+
+/-- the validity check is satisfiable by every input form (and rejects a CSC triple whose row
+index exceeds the grid) -/
+example : (Input.ndarray 2 1 [[(1 : Int)], [2]]).valid = true ∧
+    (Input.spmat .csc 2 2 [0, 1, 3] [1, 0, 0] [(5 : Int), 0, 7]).valid = true ∧
+    (Input.spmat .csr 2 2 [0, 2, 3] [0, 1, 1] [(5 : Int), 0, 7]).valid = true ∧
+    (Input.spmat .coo 2 2 [1, 1, 0] [0, 0, 1] [(5 : Int), 2, 7]).valid = true ∧
+    (Input.seq true [.sp 1 3 [(2, (4 : Int))], .sp 1 3 []]).valid = true ∧
+    (Input.spmat .csc 2 1 [0, 1] [2] [(5 : Int)]).valid = false := by decide
+
 variable [DecidableEq K]
 
 /-- **`a + b` is horizontal concatenation**: for bases over the same grid the sum exists, has
@@ -227,13 +361,251 @@ theorem lstsq_recovers_complex (b : Basis ℂ) (hb : WF b)
     (fun z hz => Complex.normSq_eq_zero.mp hz) (linComb b)
     (fun x y => by rw [linComb_length b hb, linComb_length b hb]) b.nmodes hind c x hc hx hmin
 
+/-- `certified` spelled out -/
+theorem certified_iff {K : Type} [Zero K] [Add K] [Sub K] [Mul K] [DecidableEq K] (conj : K → K)
+    (b : Basis K) (x y : List K) :
+    certified conj b x y = true ↔ (∀ t ∈ normalResidual conj b x y, t = 0) ∧ x.length = b.nmodes := by
+  simp [certified]
+
+/-- **A certified answer of the model is a least-squares solution** — real scalars.  The driver
+answers `lstsq` with `x` only when `certified conj b x y` evaluates to `true` on the output of the
+Gauss–Jordan model `ModeBasis.lstsq` (exact check of `Aᴴ (A x − y) = 0` and of the length); that
+executed predicate is the hypothesis here.  Conclusion: `x` minimises `‖A z − y‖²` over all
+coefficient vectors, in every storage form. -/
+theorem normal_eq_minimises {R : Type} [Field R] [LinearOrder R] [IsStrictOrderedRing R]
+    (b : Basis R) (hb : WF b) (x y : List R) (hy : y.length = b.npix)
+    (h : certified id b x y = true) :
+    ∀ z : List R, z.length = b.nmodes →
+      resid (fun t => t * t) (linComb b x) y ≤ resid (fun t => t * t) (linComb b z) y := by
+  obtain ⟨h, hx⟩ := (certified_iff id b x y).mp h
+  exact fun z hz => normal_eq_minimises_gen (RingHom.id R) (AddMonoidHom.id R) (fun t => t * t)
+    (fun a b => by simp only [RingHom.id_apply, AddMonoidHom.id_apply]; ring)
+    (fun t => mul_self_nonneg t) b hb x y hx hy h z hz
+
+/-- The same over ℂ (`conj` = complex conjugation, squared modulus). -/
+theorem normal_eq_minimises_complex [DecidableEq ℂ] (b : Basis ℂ) (hb : WF b) (x y : List ℂ)
+    (hy : y.length = b.npix) (h : certified (starRingEnd ℂ) b x y = true) :
+    ∀ z : List ℂ, z.length = b.nmodes →
+      resid Complex.normSq (linComb b x) y ≤ resid Complex.normSq (linComb b z) y := by
+  obtain ⟨h, hx⟩ := (certified_iff (starRingEnd ℂ) b x y).mp h
+  exact fun z hz => normal_eq_minimises_gen (starRingEnd ℂ) Complex.reAddGroupHom Complex.normSq
+    (fun a b => by rw [Complex.normSq_add, mul_comm ((starRingEnd ℂ) b) a]; rfl)
+    Complex.normSq_nonneg b hb x y hx hy h z hz
+
+/-- **Hence the model's certified `coefficients_for` reproduces the coefficients of independent
+modes**: what the driver prints for `y = A·c` (it passed `certified`) is `c`.  This is
+`lstsq_recovers` with its minimiser hypothesis discharged for the model. -/
+theorem lstsq_certified_recovers {R : Type} [Field R] [LinearOrder R] [IsStrictOrderedRing R]
+    (b : Basis R) (hb : WF b)
+    (hind : ∀ x y : List R, x.length = b.nmodes → y.length = b.nmodes → linComb b x = linComb b y → x = y)
+    (c x : List R) (hc : c.length = b.nmodes)
+    (h : certified id b x (linComb b c) = true) : x = c :=
+  lstsq_recovers b hb hind c x hc ((certified_iff id b x _).mp h).2 fun z hz =>
+    normal_eq_minimises b hb x (linComb b c) (linComb_length b hb c) h z hz
+
+theorem lstsq_certified_recovers_complex [DecidableEq ℂ] (b : Basis ℂ) (hb : WF b)
+    (hind : ∀ x y : List ℂ, x.length = b.nmodes → y.length = b.nmodes → linComb b x = linComb b y → x = y)
+    (c x : List ℂ) (hc : c.length = b.nmodes)
+    (h : certified (starRingEnd ℂ) b x (linComb b c) = true) : x = c :=
+  lstsq_recovers_complex b hb hind c x hc ((certified_iff (starRingEnd ℂ) b x _).mp h).2 fun z hz =>
+    normal_eq_minimises_complex b hb x (linComb b c) (linComb_length b hb c) h z hz
+
+/-- **The executable least-squares model is sound**: whatever `ModeBasis.lstsq` (normal
+equations solved by Gauss–Jordan elimination with pivot search, on lists — the function the
+driver runs for `C14 lstsq`) returns passes the certificate: it has one coefficient per mode and
+solves `Aᴴ (A x − y) = 0` exactly.  Any field, any `conj`, every storage form, every right-hand
+side of the right length; no hypothesis on the rank (dependent modes make `lstsq` answer `none`
+or a particular solution, never a wrong one).  The driver's run-time evaluation of `certified`
+therefore never fails (`err internal` is unreachable). -/
+theorem lstsq_sound {K : Type} [Field K] [DecidableEq K] (conj : K → K) (b : Basis K)
+    (x y : List K) (hy : y.length = b.npix) (h : lstsq conj b y = some x) :
+    certified conj b x y = true := by
+  obtain ⟨hx, hr⟩ := lstsq_sound_aux conj b x y hy h
+  exact (certified_iff conj b x y).mpr ⟨hr, hx⟩
+
+/-- **The model's `coefficients_for` returns a least-squares solution** — real scalars: no
+certificate, no hypothesis about the answer; `x` is what `lstsq` computed. -/
+theorem lstsq_minimises {R : Type} [Field R] [LinearOrder R] [IsStrictOrderedRing R]
+    (b : Basis R) (hb : WF b) (x y : List R) (hy : y.length = b.npix) (h : lstsq id b y = some x) :
+    ∀ z : List R, z.length = b.nmodes →
+      resid (fun t => t * t) (linComb b x) y ≤ resid (fun t => t * t) (linComb b z) y :=
+  normal_eq_minimises b hb x y hy (lstsq_sound id b x y hy h)
+
+theorem lstsq_minimises_complex [DecidableEq ℂ] (b : Basis ℂ) (hb : WF b) (x y : List ℂ)
+    (hy : y.length = b.npix) (h : lstsq (starRingEnd ℂ) b y = some x) :
+    ∀ z : List ℂ, z.length = b.nmodes →
+      resid Complex.normSq (linComb b x) y ≤ resid Complex.normSq (linComb b z) y :=
+  normal_eq_minimises_complex b hb x y hy (lstsq_sound _ b x y hy h)
+
+/-- **… and reproduces the coefficients of any combination of linearly independent modes**
+(the least-squares clause of the property, for the executed model): if `lstsq` answers `x` for
+`y = A·c`, then `x = c`. -/
+theorem lstsq_model_recovers {R : Type} [Field R] [LinearOrder R] [IsStrictOrderedRing R]
+    (b : Basis R) (hb : WF b)
+    (hind : ∀ x y : List R, x.length = b.nmodes → y.length = b.nmodes → linComb b x = linComb b y → x = y)
+    (c x : List R) (hc : c.length = b.nmodes) (h : lstsq id b (linComb b c) = some x) : x = c :=
+  lstsq_certified_recovers b hb hind c x hc (lstsq_sound id b x _ (linComb_length b hb c) h)
+
+theorem lstsq_model_recovers_complex [DecidableEq ℂ] (b : Basis ℂ) (hb : WF b)
+    (hind : ∀ x y : List ℂ, x.length = b.nmodes → y.length = b.nmodes → linComb b x = linComb b y → x = y)
+    (c x : List ℂ) (hc : c.length = b.nmodes) (h : lstsq (starRingEnd ℂ) b (linComb b c) = some x) :
+    x = c :=
+  lstsq_certified_recovers_complex b hb hind c x hc (lstsq_sound _ b x _ (linComb_length b hb c) h)
+
+/-- **The model's `coefficients_for` always answers for linearly independent modes** (it never
+reports "dependent modes", the driver's `err rank`, for them) — real scalars, every right-hand
+side.  A failed pivot search would exhibit `z ≠ 0` with `Aᴴ A z = 0`, hence `A z = 0`. -/
+theorem lstsq_complete {R : Type} [Field R] [LinearOrder R] [IsStrictOrderedRing R]
+    (b : Basis R) (hb : WF b)
+    (hind : ∀ x y : List R, x.length = b.nmodes → y.length = b.nmodes → linComb b x = linComb b y → x = y)
+    (y : List R) (hy : y.length = b.npix) : ∃ x, lstsq id b y = some x :=
+  lstsq_complete_gen (RingHom.id R) (AddMonoidHom.id R)
+    (fun w => by simp only [RingHom.id_apply, AddMonoidHom.id_apply]; exact mul_self_nonneg w)
+    (fun w h => by
+      simp only [RingHom.id_apply, AddMonoidHom.id_apply] at h
+      exact mul_self_eq_zero.mp h)
+    b hb hind y hy
+
+theorem lstsq_complete_complex [DecidableEq ℂ] (b : Basis ℂ) (hb : WF b)
+    (hind : ∀ x y : List ℂ, x.length = b.nmodes → y.length = b.nmodes → linComb b x = linComb b y → x = y)
+    (y : List ℂ) (hy : y.length = b.npix) : ∃ x, lstsq (starRingEnd ℂ) b y = some x :=
+  lstsq_complete_gen (starRingEnd ℂ) Complex.reAddGroupHom
+    (fun w => by
+      simp only [Complex.coe_reAddGroupHom, Complex.mul_re, Complex.conj_re, Complex.conj_im]
+      nlinarith [mul_self_nonneg w.re, mul_self_nonneg w.im])
+    (fun w h => by
+      simp only [Complex.coe_reAddGroupHom, Complex.mul_re, Complex.conj_re, Complex.conj_im] at h
+      have h1 : w.re * w.re = 0 := by nlinarith [mul_self_nonneg w.re, mul_self_nonneg w.im]
+      have h2 : w.im * w.im = 0 := by nlinarith [mul_self_nonneg w.re, mul_self_nonneg w.im]
+      exact Complex.ext (mul_self_eq_zero.mp h1) (mul_self_eq_zero.mp h2))
+    b hb hind y hy
+
+/-- **The least-squares clause of the property, for the executed model, without any
+hypothesis about the answer**: for linearly independent modes, `coefficients_for(A·c)` of the
+model *is* `c` — in every storage form (dense or sparse `b`), real scalars. -/
+theorem lstsq_total {R : Type} [Field R] [LinearOrder R] [IsStrictOrderedRing R]
+    (b : Basis R) (hb : WF b)
+    (hind : ∀ x y : List R, x.length = b.nmodes → y.length = b.nmodes → linComb b x = linComb b y → x = y)
+    (c : List R) (hc : c.length = b.nmodes) : lstsq id b (linComb b c) = some c := by
+  obtain ⟨x, hx⟩ := lstsq_complete b hb hind (linComb b c) (linComb_length b hb c)
+  rw [hx, lstsq_model_recovers b hb hind c x hc hx]
+
+/-- the same over ℂ -/
+theorem lstsq_total_complex [DecidableEq ℂ] (b : Basis ℂ) (hb : WF b)
+    (hind : ∀ x y : List ℂ, x.length = b.nmodes → y.length = b.nmodes → linComb b x = linComb b y → x = y)
+    (c : List ℂ) (hc : c.length = b.nmodes) : lstsq (starRingEnd ℂ) b (linComb b c) = some c := by
+  obtain ⟨x, hx⟩ := lstsq_complete_complex b hb hind (linComb b c) (linComb_length b hb c)
+  rw [hx, lstsq_model_recovers_complex b hb hind c x hc hx]
+
+/-- **An answer of the model certifies independence** (any field, any `conj`): if `lstsq`
+answers for some right-hand side, the linear-combination map is injective.  This is the bridge
+from the executed model to the hypothesis `hind` of the theorems above: the harness only compares
+`coefficients_for` where the model answered. -/
+theorem lstsq_some_independent {K : Type} [Field K] [DecidableEq K] (conj : K → K) (b : Basis K)
+    (hb : WF b) (x y : List K) (h : lstsq conj b y = some x) :
+    ∀ v₁ v₂ : List K, v₁.length = b.nmodes → v₂.length = b.nmodes →
+      linComb b v₁ = linComb b v₂ → v₁ = v₂ :=
+  fun v₁ v₂ h₁ h₂ hlc => lstsq_unique conj b hb x y h v₁ v₂ h₁ h₂ hlc
+
+/-- **The model answers exactly for the independent bases** — real scalars, every right-hand
+side of the right length: "`lstsq` answers" is a decision procedure for "the modes are linearly
+independent". -/
+theorem lstsq_answers_iff_independent {R : Type} [Field R] [LinearOrder R] [IsStrictOrderedRing R]
+    (b : Basis R) (hb : WF b) (y : List R) (hy : y.length = b.npix) :
+    (∃ x, lstsq id b y = some x) ↔
+    (∀ v₁ v₂ : List R, v₁.length = b.nmodes → v₂.length = b.nmodes →
+      linComb b v₁ = linComb b v₂ → v₁ = v₂) :=
+  ⟨fun ⟨x, h⟩ => lstsq_some_independent id b hb x y h, fun hind => lstsq_complete b hb hind y hy⟩
+
+/-- **Whatever the model answers for `A·c` is `c`** — no independence hypothesis, no
+certificate: the hypothesis is only that `lstsq` answered (which it does exactly for independent
+modes).  Real scalars; any storage form. -/
+theorem lstsq_answer_exact {R : Type} [Field R] [LinearOrder R] [IsStrictOrderedRing R]
+    (b : Basis R) (hb : WF b) (c x : List R) (hc : c.length = b.nmodes)
+    (h : lstsq id b (linComb b c) = some x) : x = c :=
+  lstsq_model_recovers b hb (lstsq_some_independent id b hb x _ h) c x hc h
+
+theorem lstsq_answer_exact_complex [DecidableEq ℂ] (b : Basis ℂ) (hb : WF b) (c x : List ℂ)
+    (hc : c.length = b.nmodes) (h : lstsq (starRingEnd ℂ) b (linComb b c) = some x) : x = c :=
+  lstsq_model_recovers_complex b hb (lstsq_some_independent _ b hb x _ h) c x hc h
+
+/-- **`coefficients_for` does not depend on the storage form**: bases that denote the same
+matrix give the same answer (the same coefficients, or the same "dependent modes" failure) of the
+executable least-squares model, for every right-hand side and every scalar type. -/
+theorem coefficients_storage_independent {K : Type} [AddCommMonoid K] [Sub K] [Mul K] [Div K]
+    [DecidableEq K] (conj : K → K) (a b : Basis K) (h : Same a b) (y : List K) :
+    lstsq conj a y = lstsq conj b y := by
+  have hcol : ∀ j ∈ List.range a.nmodes, column a j = column b j := by
+    intro j hj
+    unfold column
+    rw [← h.1]
+    apply List.map_congr_left
+    intro i hi
+    exact ent_of_toDense_eq a b h i j (List.mem_range.mp hi) (List.mem_range.mp hj)
+  have hcols : (List.range a.nmodes).map (column a) = (List.range b.nmodes).map (column b) := by
+    rw [← h.2.1]; exact List.map_congr_left hcol
+  have hadj : adjRows conj a = adjRows conj b := by
+    unfold adjRows
+    rw [← h.2.1]
+    exact List.map_congr_left fun j hj => by rw [hcol j hj]
+  unfold lstsq
+  simp only [hcols, hadj]
+  rw [h.2.1]
+
+/-- **One linear map, one behaviour** (the property's first sentence in one statement).  Two
+well-formed bases that denote the same matrix — e.g. the six bases of `input_forms_same_map` —
+agree in every observable: all linear combinations, every index expression (kind of result,
+values, errors), `to_sparse`/`to_dense`, least-squares coefficients for every right-hand side,
+and their concatenations with bases that again denote the same matrix denote the same matrix. -/
+theorem same_map_same_behaviour {K : Type} [Field K] [DecidableEq K] (a b : Basis K)
+    (ha : WF a) (hb : WF b) (h : Same a b) :
+    (∀ c, linComb a c = linComb b c) ∧
+    (∀ ix, (getItem a ix).map Item.den = (getItem b ix).map Item.den) ∧
+    toDense (sparsify a) = toDense (sparsify b) ∧ toDense (densify a) = toDense (densify b) ∧
+    (∀ (conj : K → K) y, lstsq conj a y = lstsq conj b y) ∧
+    (∀ a' b', WF a' → WF b' → Same a' b' → a.npix = a'.npix →
+      ∃ r r', add a a' = some r ∧ add b b' = some r' ∧ Same r r') := by
+  refine ⟨lc_storage_independent a b ha hb h.2.2, getitem_storage_independent a b ha hb h, ?_, ?_,
+    fun conj y => coefficients_storage_independent conj a b h y, ?_⟩
+  · rw [toDense_sparsify, toDense_sparsify, h.2.2]
+  · rw [toDense_densify, toDense_densify, h.2.2]
+  · intro a' b' ha' hb' h' hn
+    obtain ⟨r, e1, _, n1, m1, _, t1⟩ := add_is_hconcat a a' ha ha' hn
+    obtain ⟨r', e2, _, n2, m2, _, t2⟩ := add_is_hconcat b b' hb hb' (by rw [← h.1, ← h'.1, hn])
+    refine ⟨r, r', e1, e2, ?_, ?_, ?_⟩
+    · rw [n1, n2, h.1]
+    · rw [m1, m2, h.2.1, h'.2.1]
+    · rw [t1, t2, h.2.2, h'.2.2]
+
+/-- … in particular for any two valid constructor inputs that denote one matrix. -/
+theorem inputs_same_map_same_behaviour {K : Type} [Field K] [DecidableEq K] (i₁ i₂ : Input K)
+    (v₁ : i₁.valid = true) (v₂ : i₂.valid = true) (a b : Basis K)
+    (h₁ : fromInput i₁ = some a) (h₂ : fromInput i₂ = some b) (h : Same a b) :
+    (∀ c, linComb a c = linComb b c) ∧
+    (∀ ix, (getItem a ix).map Item.den = (getItem b ix).map Item.den) ∧
+    (∀ (conj : K → K) y, lstsq conj a y = lstsq conj b y) := by
+  obtain ⟨p1, p2, _, _, p5, _⟩ :=
+    same_map_same_behaviour a b (fromInput_WF i₁ v₁ a h₁) (fromInput_WF i₂ v₂ b h₂) h
+  exact ⟨p1, p2, p5⟩
+
+/-- the certificate is satisfiable: `x = [2]` solves the normal equations of `A = [[1],[1]]`,
+`y = [1,3]` (and is not an exact solution of `A x = y`) -/
+example : certified id (fromDense 2 1 [[(1 : ℚ)], [1]]) [2] [1, 3] = true := by decide +kernel
+
+/-- … and it is what the model computes (the hypothesis `lstsq … = some x` of `lstsq_sound`,
+`lstsq_minimises` is satisfiable; dependent modes answer `none`) -/
+example : lstsq id (fromDense 2 1 [[(1 : ℚ)], [1]]) [1, 3] = some [2] ∧
+    lstsq id (fromDense 2 2 [[(1 : ℚ), 2], [2, 4]]) [1, 3] = none := by decide +kernel
+
 end lstsq
 
 section mirror
 variable {K : Type} [Zero K] [Add K] [Mul K] [DecidableEq K]
 
-/-- The cache invariant (`cached = some a → surface = IF · a`) holds for a new mirror and is
-preserved by every operation, hence along every history. -/
+/-- The cache invariant holds for a new mirror and is preserved by every operation, hence along
+every history: (i) whatever actuator vector the cache claims to belong to, the cached surface
+array holds `IF · that vector`; (ii) no array a caller received from `dm.surface` is the cached
+array object (so in-place edits of returned surfaces cannot reach the cache). -/
 theorem mirror_cache_invariant (infl : List (List K)) (n : Nat) (ops : List (Op K)) :
     Inv (run (init infl n) ops).1 := by
   have : ∀ (m : Mirror K), Inv m → Inv (run m ops).1 := by
@@ -244,10 +616,13 @@ theorem mirror_cache_invariant (infl : List (List K)) (n : Nat) (ops : List (Op 
 
 /-- **The reported surface always equals `IF · current actuators`.**  For EVERY history of
 assignments of new arrays, re-assignments of arrays handed out earlier, in-place edits of any
-array ever handed out (the one the mirror holds or a released one), `flatten`, `random` and new
+actuator array ever handed out (the one the mirror holds or a released one), **in-place edits of
+any surface array a read ever returned** (`Op.editSurface`), `flatten`, `random` and new
 influence functions, with reads anywhere in between, the sequence of surfaces returned by the
-cached mirror is exactly the sequence returned by the cache-free specification, which evaluates
-`matvec infl (current actuator array)` at every read. -/
+cached mirror (`read` = the property as repaired by pending_fixes/D22f: a copy is handed out) is
+exactly the sequence returned by the cache-free specification, which evaluates
+`matvec infl (current actuator array)` at every read and ignores what callers do to arrays they
+received.  For the property as pinned this is false: `old_readAlias_corrupts_cache`. -/
 theorem mirror_surface_inv (infl : List (List K)) (n : Nat) (ops : List (Op K)) :
     (run (init infl n) ops).2 = (spec (init infl n)).run ops :=
   run_spec _ ops (inv_init infl n)
@@ -258,6 +633,60 @@ theorem mirror_read_ideal (infl : List (List K)) (n : Nat) (ops : List (Op K)) :
     let m := (run (init infl n) ops).1
     (read m).2 = matvec m.infl (acts m) ∧ spec (read m).1 = spec m :=
   ⟨read_snd _ (mirror_cache_invariant infl n ops), read_fst_spec _⟩
+
+/-- **The driver's lockstep is sound**: the specification state the driver steps alongside the
+cached mirror (`Spec.step` per operation, answered by `C14 mirror ideal` and compared with
+`dm.influence_functions.linear_combination(dm.actuators)` of the running code) is, after every
+history, the projection `spec` of the cached mirror's state — actuator heap, current handle and
+influence functions never depend on the cache or on surface arrays. -/
+theorem mirror_spec_lockstep (infl : List (List K)) (n : Nat) (ops : List (Op K)) :
+    spec (run (init infl n) ops).1 = (spec (init infl n)).after ops :=
+  run_spec_state _ ops (inv_init infl n)
+
+/-- **`opd` is twice `IF · actuators`** in every reachable state (the read-out the driver
+executes for `C14 mirror opd`), and as far as the mirror's state is concerned it is a read of
+`surface` — so every history with `opd` read-outs is covered by `mirror_surface_inv`. -/
+theorem mirror_opd_ideal (infl : List (List K)) (n : Nat) (ops : List (Op K)) :
+    let m := (run (init infl n) ops).1
+    (readOpd m).2 = (spec m).opd ∧ (readOpd m).1 = (read m).1 := by
+  intro m
+  refine ⟨?_, rfl⟩
+  show double (read m).2 = double (matvec (spec m).infl (spec m).acts)
+  rw [read_snd _ (mirror_cache_invariant infl n ops)]
+  rfl
+
+/-- **Every read-out that goes through the `surface` property sees `IF · actuators`**: `opd`,
+`phase_for`, `forward`, `backward` evaluate `self.surface` once and post-process the array (`g`);
+in any reachable state the result is `g (IF · current actuators)` and the state change is that
+of a read.  (`g` for `opd` is executed by the driver; the transcendental `g` of the other three
+is compared numerically by the harness.) -/
+theorem mirror_readout_ideal {β : Type} (g : List K → β) (infl : List (List K)) (n : Nat)
+    (ops : List (Op K)) :
+    let m := (run (init infl n) ops).1
+    (readOut g m).2 = g (matvec m.infl (acts m)) ∧ (readOut g m).1 = (read m).1 := by
+  intro m
+  refine ⟨?_, rfl⟩
+  show g (read m).2 = g (matvec m.infl (acts m))
+  rw [read_snd _ (mirror_cache_invariant infl n ops)]
+
+/-- **Returned surfaces are the caller's own**: in any reachable state, an in-place edit of any
+array that any earlier read returned changes neither the cached surface array nor what the next
+read returns. -/
+theorem mirror_returned_surface_private (infl : List (List K)) (n : Nat) (ops : List (Op K))
+    (k i : Nat) (v : K) :
+    let m := (run (init infl n) ops).1
+    surface (editOut m k i v) = surface m ∧
+    (read (editOut m k i v)).2 = (read m).2 := by
+  intro m
+  have hm : Inv m := mirror_cache_invariant infl n ops
+  refine ⟨surface_editOut m hm k i v, ?_⟩
+  rw [read_snd _ (editOut_inv m hm k i v), read_snd _ hm]
+  have h := spec_editOut m k i v
+  have h1 : (editOut m k i v).infl = m.infl := congrArg Spec.infl h
+  have h2 : acts (editOut m k i v) = acts m := by
+    have := congrArg Spec.acts h
+    simpa [Spec.acts, spec, acts] using this
+  rw [h1, h2]
 
 end mirror
 
@@ -273,6 +702,27 @@ theorem readByRef_stale :
 theorem readByIdentity_stale :
     runWith readByIdentity (init [[(1 : Int)]] 1) [.read, .edit 0 0 5, .read] = [[0], [0]] ∧
     (spec (init [[(1 : Int)]] 1)).run [.read, .edit 0 0 5, .read] = [[0], [5]] := by decide
+
+/-! ### Old: the `surface` property as pinned (before pending_fixes/D22f) hands out its cache -/
+section Old
+open HcipyVerif.Mirror.Old
+
+/-- **Defect D22f (replayed on the real `DeformableMirror`, see reports/C14.md).**  With
+`return self._surface` the caller holds the cached array itself: `dm.actuators = [1];
+s = dm.surface; s[0] = 5; dm.surface` answers `[5]` although the actuators still say `[1]` —
+the cache-free specification (and the repaired `read`) answer `[1]`. -/
+theorem old_readAlias_corrupts_cache :
+    runWith readAlias (init [[(1 : Int)]] 1) [.assign [1], .read, .editSurface 0 0 5, .read] = [[1], [5]] ∧
+    (spec (init [[(1 : Int)]] 1)).run [.assign [1], .read, .editSurface 0 0 5, .read] = [[1], [1]] ∧
+    (run (init [[(1 : Int)]] 1) [.assign [1], .read, .editSurface 0 0 5, .read]).2 = [[1], [1]] := by decide
+
+/-- … and the invariant clause that fails is exactly `outs_ne`: after one aliasing read the
+caller holds the cached array. -/
+theorem old_readAlias_breaks_outs_ne :
+    let m := (readAlias (init [[(1 : Int)]] 1)).1
+    ∃ h ∈ m.outs, h = m.surf := by decide
+
+end Old
 
 /-! ### Satisfiability of the hypotheses -/
 
